@@ -32,7 +32,7 @@ def floors(tier):
 def generate(ctx):
     n = ctx.budget(9000, 1280000)
     for _ in range(n):
-        regime = ctx.rng.choice(["round_numbers", "typical", "wide", "mismatch", "equal_size", "equal_size", "identical", "tiny_sigma", "huge_sigma"])
+        regime = ctx.rng.choice(["round_numbers", "coincidences", "typical", "wide", "mismatch", "equal_size", "equal_size", "identical", "tiny_sigma", "huge_sigma"])
         # base scale moderate so that f in 1e-3..1e3 stays inside the six decades the property speaks about
         cfg = gen.gen_cfg(ctx.rng, scale=1.0)
         case, meta = gen.gen_case(ctx.rng, cfg=cfg, regime=regime)
@@ -132,7 +132,7 @@ def probe_sc(ctx, payload):
         if r2.exc is not None or r2.shape_err:
             ctx.violation("scale/no-return", "sc", payload, dict(exc=exc_detail(r2.exc) if r2.exc else r2.shape_err, f=f), model, reg)
         else:
-            munoise = tol.mu_noise(case)
+            munoise = tol.mu_noise(case, tau=base.tau, beta=base.cfg["beta"])
             bad = None
             for i, t in enumerate(case["teams"]):
                 for j, p in enumerate(t):
@@ -196,7 +196,7 @@ def probe_sc(ctx, payload):
         if r3.exc is not None or r3.shape_err:
             ctx.violation("shift/no-return", "sc", payload, dict(exc=exc_detail(r3.exc) if r3.exc else r3.shape_err, a=a), model, reg)
         else:
-            munoise = tol.mu_noise(case, shift=a)
+            munoise = tol.mu_noise(case, shift=a, tau=base.tau, beta=base.cfg["beta"])
             noise = tol.wt_noise(case, base.cfg, base.tau, meta["levels"])
             jump = tol.vt_jump(case, base.cfg, base.tau, meta["levels"])
             vnoise = tol.vt_noise(case, base.cfg, base.tau, meta["levels"])
